@@ -89,6 +89,15 @@ pub fn abandon_at() -> impl Strategy<Value = AbandonAt> {
     ]
 }
 
+/// Adds "cancel a write in mid-flight, then commit" (outcome unjudged: only for engines that
+/// do not use the model).
+pub fn abandon_at_with_cancel() -> impl Strategy<Value = AbandonAt> {
+    prop_oneof![
+        6 => abandon_at(),
+        2 => (0usize..4).prop_map(AbandonAt::CancelThenCommit),
+    ]
+}
+
 pub fn link_spec(nkeys: usize, nblobs: usize, bad: bool) -> impl Strategy<Value = LinkSpec> {
     (
         (any::<u16>(), any::<u16>(), 0usize..4, gen::algo(), any::<bool>(), any::<bool>()),
@@ -106,6 +115,8 @@ pub fn link_spec(nkeys: usize, nblobs: usize, bad: bool) -> impl Strategy<Value 
             pre_reads: if oneshot { vec![] } else { pre_reads },
             declare: if oneshot { Declare::Exact } else { declare },
             integ: if oneshot { IntegDecl::None } else { integ },
+            dotdot_via_symlink: false,
+            vectored_reads: !oneshot && (k & 4) == 4,
         })
 }
 
@@ -146,7 +157,7 @@ pub fn op(cfg: ProgCfg, nkeys: usize, nblobs: usize) -> BoxedStrategy<Op> {
     add(m.link_to, link_spec(nkeys, nblobs, cfg.wmix.bad_decls).prop_map(Op::LinkTo).boxed());
     add(
         m.abandon,
-        (gen::write_spec(cfg.wmix, nkeys, nblobs), abandon_at())
+        (gen::write_spec(cfg.wmix, nkeys, nblobs), if cfg.wmix.interfere { abandon_at_with_cancel().boxed() } else { abandon_at().boxed() })
             .prop_map(|(mut spec, at)| {
                 if !spec.streamed() {
                     spec.entry = WEntry::Opts;
